@@ -29,11 +29,10 @@ theorem setAdditional_tie (add : Frame) (w : World) :
     simp only [Option.elim, Frame.isPong]
     by_cases hp : (f.header.opcode == OpCode.control OpCtl.pong) = true <;> simp [hp]
 
-/-- The generated `check_connection_reset` assigns `Terminated` whenever the *translated* result
-is `ConnectionClosed`; the hand model only when it translated a reset.  They agree unless the
-input already was `ConnectionClosed` in a non-terminated state. -/
-theorem checkConnectionReset_tie {α : Type} (r : Res α) (w : World)
-    (h : r = .err .connectionClosed → w.c.state = .terminated) :
+/-- The generated `check_connection_reset` and the hand model both translate the result first and
+then assign `Terminated` whenever the *translated* result is `ConnectionClosed` (also when the
+input already was `ConnectionClosed`), so they agree on every input. -/
+theorem checkConnectionReset_tie {α : Type} (r : Res α) (w : World) :
     GenCtx.checkConnectionReset r w = w.checkConnectionReset r := by
   unfold GenCtx.checkConnectionReset World.checkConnectionReset
   tie_norm
@@ -47,18 +46,7 @@ theorem checkConnectionReset_tie {α : Type} (r : Res α) (w : World)
         simp [resCheckConnectionReset, WsState.canRead, bind_apply, setStateM_apply, liftRes_apply]
     | connectionClosed =>
       simp [resCheckConnectionReset, bind_apply, setStateM_apply, liftRes_apply]
-      exact setState_same _ _ (h rfl)
     | _ => rfl
-
-/-- without the hypothesis the two differ: the generated code terminates, the hand model does not -/
-theorem checkConnectionReset_counterexample (w : World) (h : w.c.state = .active) :
-    GenCtx.checkConnectionReset (.err .connectionClosed : Res Unit) w ≠
-      w.checkConnectionReset (.err .connectionClosed) := by
-  intro hc
-  have h1 : (GenCtx.checkConnectionReset (.err .connectionClosed : Res Unit) w).1.c.state = .terminated := rfl
-  have h2 : (w.checkConnectionReset (.err .connectionClosed : Res Unit)).1.c.state = w.c.state := rfl
-  rw [hc, h2, h] at h1
-  cases h1
 
 theorem codecBufferFrame_ne_cc (f : Frame) (w : World) :
     (codecBufferFrame f w).2 ≠ .err .connectionClosed := by
@@ -88,16 +76,14 @@ theorem bufferFrame_eq_tail (w : World) (f : Frame) :
 theorem bufferTail_tie (f : Frame) (w : World) :
     (attempt (codecBufferFrame f) >>= fun r => GenCtx.checkConnectionReset r) w = bufTail w f := by
   rw [attempt_bind_apply]
-  have hne := codecBufferFrame_ne_cc f w
   unfold bufTail
   unfold codecBufferFrame at *
   rcases hb : w.c.codec.bufferFrame w.t f with ⟨codec, t, r⟩
-  rw [hb] at hne
-  simp only [] at hne ⊢
+  simp only []
   cases r with
   | panic s => rfl
-  | ok a => simp only []; rw [checkConnectionReset_tie _ _ (by intro h; cases h)]
-  | err e => simp only []; rw [checkConnectionReset_tie _ _ (fun h => absurd h hne)]
+  | ok a => simp only []; rw [checkConnectionReset_tie]
+  | err e => simp only []; rw [checkConnectionReset_tie]
 
 theorem bufferFrame_tie (f : Frame) (w : World) : GenCtx.bufferFrame f w = w.bufferFrame f := by
   rw [bufferFrame_eq_tail]
